@@ -8,7 +8,10 @@ package turbotunnel
 //
 // Environment: VERIF_IN (cases, one JSON object per line), VERIF_OUT
 // (results), VERIF_TARGET (inner|conn), VERIF_T (timeout in ticks),
-// VERIF_SEED.
+// VERIF_SEED, VERIF_TICKS_NS (comma-separated durations of one abstract clock
+// tick in nanoseconds; target inner runs every case once per scale - the
+// specification's clock is abstract, so the code must behave the same whether
+// a tick is a nanosecond or an hour).
 
 import (
 	"bufio"
@@ -22,6 +25,7 @@ import (
 	"runtime/debug"
 	"sort"
 	"strconv"
+	"strings"
 	"sync"
 	"sync/atomic"
 	"testing"
@@ -119,8 +123,7 @@ func vqSame(a, b []int) bool {
 
 // vqRun executes one case; it returns "" or (signature, detail) of the first
 // step whose observed result differs from the expected one.
-func vqRun(c *vqCase, target string, T int, seed uint64, idx int) (string, string) {
-	const tick = time.Second
+func vqRun(c *vqCase, target string, T int, seed uint64, idx int, tick time.Duration) (string, string) {
 	base := time.Unix(1700000000, 0)
 	now := 0
 	held := map[int]<-chan []byte{}
@@ -283,6 +286,15 @@ func TestVerifQueue(t *testing.T) {
 	}
 	T, _ := strconv.Atoi(os.Getenv("VERIF_T"))
 	seed, _ := strconv.ParseUint(os.Getenv("VERIF_SEED"), 10, 64)
+	var ticks []time.Duration
+	for _, f := range strings.Split(os.Getenv("VERIF_TICKS_NS"), ",") {
+		if ns, err := strconv.ParseInt(strings.TrimSpace(f), 10, 64); err == nil && ns > 0 {
+			ticks = append(ticks, time.Duration(ns))
+		}
+	}
+	if len(ticks) == 0 || target != "inner" {
+		ticks = []time.Duration{time.Second}
+	}
 	raw, err := vqReadCases(in)
 	if err != nil {
 		t.Fatal(err)
@@ -300,7 +312,7 @@ func TestVerifQueue(t *testing.T) {
 		w.WriteByte('\n')
 		mu.Unlock()
 	}
-	var next, steps, nontrivial int64
+	var next, steps, nontrivial, runs int64
 	var wg sync.WaitGroup
 	for k := 0; k < runtime.NumCPU(); k++ {
 		wg.Add(1)
@@ -330,15 +342,19 @@ func TestVerifQueue(t *testing.T) {
 							put(vqResult{Idx: i, Sig: "queue/" + target + "/panic", Detail: fmt.Sprintf("%v\n%s", v, debug.Stack()), Case: json.RawMessage(raw[i])})
 						}
 					}()
-					if sig, detail := vqRun(&c, target, T, seed, i); sig != "" {
-						put(vqResult{Idx: i, Sig: sig, Detail: detail, Case: json.RawMessage(raw[i])})
+					for _, tick := range ticks {
+						atomic.AddInt64(&runs, 1)
+						if sig, detail := vqRun(&c, target, T, seed, i, tick); sig != "" {
+							put(vqResult{Idx: i, Sig: sig, Detail: fmt.Sprintf("[one tick = %v, timeout = %v] %s", tick, time.Duration(T)*tick, detail), Case: json.RawMessage(raw[i])})
+							break
+						}
 					}
 				}()
 			}
 		}()
 	}
 	wg.Wait()
-	put(map[string]interface{}{"summary": map[string]interface{}{"cases": len(raw), "steps": steps, "nontrivial": nontrivial}})
+	put(map[string]interface{}{"summary": map[string]interface{}{"cases": len(raw), "steps": steps, "nontrivial": nontrivial, "runs": runs, "scales": len(ticks)}})
 	w.Flush()
 	of.Close()
 }
